@@ -94,6 +94,7 @@ DEFAULT_PROFILE = {
     "triangular": 0,           # weight: a loop bound is an outer loop variable
     "index_alias_calls": 0,    # percent: call passes k and a(..k..) together
     "ensure": None,            # intrinsic name that must occur (s_ensure)
+    "scalar_loopvar": 0,       # percent: a DO uses the visible local `it`
 }
 
 
@@ -1096,6 +1097,16 @@ class Gen:
         return txt, rng
 
     def s_do(self, header=None):
+        # occasionally an ordinary (visible, readable elsewhere) integer
+        # local is re-used as the loop index, as hand-written code does
+        scalar_var = None
+        if self.int(1, 100) <= self.prof.get("scalar_loopvar", 0):
+            cand = self.vars.get("it")
+            if cand is not None and cand.role == "local" and \
+                    cand not in self.loop_stack and not self.in_helper:
+                scalar_var = cand
+        if scalar_var is not None:
+            return self._s_do_scalar(scalar_var)
         name = self.free_loopvars.pop(0)
         var = self.hidden_loopvars[name]
         if header is None:
@@ -1144,6 +1155,25 @@ class Gen:
                 lines += self.s_do(header)
             self._in_twin = False
         return lines
+
+    def _s_do_scalar(self, var):
+        """DO loop whose index is the visible local `var` (no twin / perfect
+        nest handling; the variable stays readable after the loop)."""
+        saved = self.vars.pop(var.name)
+        head, rng = self.loop_header(var)     # not visible in its header
+        self.vars[var.name] = saved
+        var.rng = rng
+        var.role = "loop"
+        self.loop_stack.append(var)
+        self.loop_kinds.append("do")
+        body = self.block(1, 3)
+        self.loop_kinds.pop()
+        self.loop_stack.pop()
+        var.rng = None
+        var.role = "local"
+        self.features.add("loop")
+        self.features.add("scalar_loopvar")
+        return [head] + body + ["end do"]
 
     def s_dowhile(self):
         self.while_counter += 1
